@@ -757,3 +757,370 @@ def _hoist_condition_calls(body, site, g, inl):
             n["c"] = out
         return n
     return rec(body)
+
+
+# ---- small constant loops and small local arrays -------------------------------------------------------------------
+def _int_lit(e):
+    e = strip(e)
+    while e.get("k") in ("ParenExpr", "ImplicitCastExpr", "CStyleCastExpr", "CXXStaticCastExpr", "CXXFunctionalCastExpr") and e.get("c"):
+        e = strip(e["c"][0])
+    if e.get("k") == "IntegerLiteral":
+        try:
+            return int(e["v"])
+        except (ValueError, TypeError):
+            return None
+    return None
+
+
+def _repo_fns(prog, repo_prefix):
+    for fn in list(prog.functions.values()):
+        if fn.get("pseudo") or not isinstance(fn.get("body"), dict) or not fn.get("file", "").startswith(repo_prefix) or "/lib/" in fn.get("file", ""):
+            continue
+        yield fn
+
+
+MAX_TRIP = 4
+
+
+def unroll_constant_loops(prog, repo_prefix):
+    """`for(T i = K0; i < K1; i++) body` with literal bounds and at most MAX_TRIP iterations, whose body neither writes i nor
+    jumps out of the loop, is replaced by the iterations written out with i replaced by its value (innermost-dependent bounds such
+    as `col = row` become literal once the outer loop is unrolled: the pass is repeated).  Loops that belong to an OpenMP
+    directive are left alone."""
+    total = 0
+    for fn in _repo_fns(prog, repo_prefix):
+        if fn.get("qn", "").startswith("gte::"):
+            continue
+        if not any(x.get("k") == "ForStmt" for x in walk(fn["body"])):
+            continue
+        counter = [max(list(_all_dids(fn["body"])) + [_FRESH * 13]) + 1]
+        omp_loops = {id(x["body"]) for x in walk(fn["body"]) if "omp" in x and isinstance(x.get("body"), dict)}
+        for _round in range(4):
+            changed = [0]
+
+            def unroll(loop):
+                if loop.get("k") != "ForStmt" or id(loop) in omp_loops:
+                    return loop
+                init, cond, inc, body = loop.get("init"), loop.get("cond"), loop.get("inc"), loop.get("body")
+                if not (isinstance(init, dict) and isinstance(cond, dict) and isinstance(inc, dict) and isinstance(body, dict)):
+                    return loop
+                if init.get("k") != "DeclStmt" or len(init.get("decls", [])) != 1 or init["decls"][0].get("k") != "Var":
+                    return loop
+                iv = init["decls"][0]
+                k0 = _int_lit(iv.get("init") or {})
+                c = strip(cond)
+                if k0 is None or c.get("k") != "BinaryOperator" or c.get("op") not in ("<", "<=", "!="):
+                    return loop
+                l = strip(c["c"][0])
+                while l.get("k") in ("ImplicitCastExpr", "ParenExpr") and l.get("c"):
+                    l = strip(l["c"][0])
+                k1 = _int_lit(c["c"][1])
+                if l.get("k") != "DeclRefExpr" or (l.get("ref") or {}).get("did") != iv.get("did") or k1 is None:
+                    return loop
+                i_ = strip(inc)
+                ok_inc = (i_.get("k") == "UnaryOperator" and i_.get("op") in ("++", "post++", "pre++") and strip(i_["c"][0]).get("k") == "DeclRefExpr" and strip(i_["c"][0])["ref"].get("did") == iv["did"]) or \
+                         (i_.get("k") == "CompoundAssignOperator" and i_.get("op") == "+=" and strip(i_["c"][0]).get("k") == "DeclRefExpr" and strip(i_["c"][0])["ref"].get("did") == iv["did"] and _int_lit(i_["c"][1]) == 1)
+                if not ok_inc:
+                    return loop
+                hi = k1 + 1 if c["op"] == "<=" else k1
+                trip = hi - k0
+                if trip < 0 or trip > MAX_TRIP or (c["op"] == "!=" and k1 < k0):
+                    return loop
+                # the body reads i only
+                for x in walk(body):
+                    k = x.get("k")
+                    if k in ("BinaryOperator", "CompoundAssignOperator") and (x.get("op") == "=" or k == "CompoundAssignOperator"):
+                        t = strip(x["c"][0])
+                        if t.get("k") == "DeclRefExpr" and (t.get("ref") or {}).get("did") == iv["did"]:
+                            return loop
+                    if k == "UnaryOperator" and x.get("op") in ("++", "--", "post++", "post--", "pre++", "pre--", "&") and x.get("c"):
+                        t = strip(x["c"][0])
+                        if t.get("k") == "DeclRefExpr" and (t.get("ref") or {}).get("did") == iv["did"]:
+                            return loop
+                    if k == "Var" and (x.get("t") or "").rstrip().endswith("&") and isinstance(x.get("init"), dict):
+                        t = strip(x["init"])
+                        if t.get("k") == "DeclRefExpr" and (t.get("ref") or {}).get("did") == iv["did"]:
+                            return loop
+                    if k == "LambdaExpr" and any(cp.get("did") == iv["did"] and cp.get("byref") for cp in x.get("captures", [])):
+                        return loop
+                if _own_jumps(body):
+                    return loop
+                copies = []
+                for val in range(k0, hi):
+                    mapping = {}
+                    for d in _declared(body):
+                        mapping[d] = counter[0]
+                        counter[0] += 1
+                    b = _remap(body, mapping)
+
+                    def sub(n, val=val):
+                        if n.get("k") == "DeclRefExpr" and (n.get("ref") or {}).get("did") == iv["did"]:
+                            return {"k": "IntegerLiteral", "v": str(val), "t": iv.get("t"), "l": n.get("l"), "unrolled_from": iv.get("name")}
+                        return n
+                    b = _rewrite(b, sub)
+                    if b.get("k") != "CompoundStmt":
+                        b = {"k": "CompoundStmt", "l": loop.get("l"), "c": [b]}
+                    b["inlined_lambda"] = True
+                    copies.append(b)
+                changed[0] += 1
+                return {"k": "CompoundStmt", "l": loop.get("l"), "c": copies, "inlined_lambda": True, "unrolled_loop": "%s=%d..%d" % (iv.get("name"), k0, hi - 1)}
+
+            fn["body"] = _rewrite(fn["body"], unroll)
+            total += changed[0]
+            if not changed[0]:
+                break
+        fn.pop("_stable_locals", None)
+    return total
+
+
+_ARR1 = re.compile(r"^(const )?std::array<(double|float|int|unsigned int|unsigned long|long|short|unsigned short|bool), (\d)>$")
+_ARR2 = re.compile(r"^(const )?std::array<std::array<(double|float|int|unsigned int|unsigned long), (\d)>, (\d)>$")
+_ACCESSOR = {"vec3": ("vec3::dx", "vec3::dy", "vec3::dz")}
+
+
+def scalarise_local_arrays(prog, repo_prefix):
+    """A small local std::array (1-D, or 2-D of scalars) that is only ever used element-wise with literal indices (after the
+    unrolling above), filled with .fill(v), or - for a 2-D array - read one whole row at a time as an argument, is replaced by one
+    scalar local per element ('scalar replacement of aggregates'); a const array initialised from vec3::to_array() of an unchanging
+    object has its element reads replaced by the corresponding accessor (dx/dy/dz).  Rules that follow scalars by declaration then
+    decide the array form as well."""
+    total = 0
+    for fn in _repo_fns(prog, repo_prefix):
+        cands = {}
+        for v in walk(fn["body"]):
+            if v.get("k") == "Var" and not v.get("static_local") and (_ARR1.match(v.get("t") or "") or _ARR2.match(v.get("t") or "")):
+                cands[v["did"]] = v
+        if not cands:
+            continue
+        # parents
+        parent = {}
+        for n in walk(fn["body"]):
+            from .model import children as _ch
+            for c in _ch(n):
+                parent[id(c)] = n
+        if any(x.get("k") == "LambdaExpr" and any(cp.get("did") in cands for cp in x.get("captures", [])) for x in walk(fn["body"])):
+            for x in walk(fn["body"]):
+                if x.get("k") == "LambdaExpr":
+                    for cp in x.get("captures", []):
+                        cands.pop(cp.get("did"), None)
+        fresh = [max(list(_all_dids(fn["body"])) + [_FRESH * 17]) + 1]
+        plans = {}
+        for did, v in list(cands.items()):
+            t = v.get("t") or ""
+            m1, m2 = _ARR1.match(t), _ARR2.match(t)
+            const = t.startswith("const ")
+            elem_t = (m1 or m2).group(2)
+            dims = (int(m1.group(3)),) if m1 else (int(m2.group(4)), int(m2.group(3)))
+            uses = [x for x in walk(fn["body"]) if x.get("k") == "DeclRefExpr" and (x.get("ref") or {}).get("did") == did]
+            plan = {"elem": [], "fill": [], "row": [], "var": v, "dims": dims, "elem_t": elem_t, "const": const, "mode": None}
+            ok = True
+
+            def up(n):
+                p = parent.get(id(n))
+                while p is not None and p.get("k") in ("ImplicitCastExpr", "ParenExpr") and len(p.get("c", [])) == 1:
+                    n, p = p, parent.get(id(p))
+                return n, p
+            for u in uses:
+                n, p = up(u)
+                if p is not None and p.get("k") == "CXXOperatorCallExpr" and p.get("op") == "[]" and len(p.get("c", [])) == 3 and p["c"][1] is n:
+                    k = _int_lit(p["c"][2])
+                    if k is None or not (0 <= k < dims[0]):
+                        ok = False
+                        break
+                    if len(dims) == 1:
+                        plan["elem"].append((p, (k,)))
+                    else:
+                        n2, p2 = up(p)
+                        if p2 is not None and p2.get("k") == "CXXOperatorCallExpr" and p2.get("op") == "[]" and len(p2.get("c", [])) == 3 and p2["c"][1] is n2:
+                            k2 = _int_lit(p2["c"][2])
+                            if k2 is None or not (0 <= k2 < dims[1]):
+                                ok = False
+                                break
+                            plan["elem"].append((p2, (k, k2)))
+                        else:
+                            q = p2
+                            while q is not None and q.get("k") in ("MaterializeTemporaryExpr", "ImplicitCastExpr", "CXXBindTemporaryExpr"):
+                                q = parent.get(id(q))
+                            if q is not None and q.get("k") in ("CXXConstructExpr", "CXXTemporaryObjectExpr", "InitListExpr"):
+                                plan["row"].append((p, k))
+                            else:
+                                ok = False
+                                break
+                elif p is not None and p.get("k") == "MemberExpr" and (p.get("ref") or {}).get("name") == "fill" and len(dims) == 1 and not const:
+                    call = parent.get(id(p))
+                    holder = parent.get(id(call)) if call is not None else None
+                    if holder is not None and holder.get("k") == "ExprWithCleanups":
+                        call_top, holder = holder, parent.get(id(holder))
+                    else:
+                        call_top = call
+                    if call is None or call.get("k") != "CXXMemberCallExpr" or holder is None or holder.get("k") != "CompoundStmt" or len(call.get("c", [])) != 2 or not _effect_free_calls_ok(call["c"][1]):
+                        ok = False
+                        break
+                    plan["fill"].append((call_top, call["c"][1]))
+                else:
+                    ok = False
+                    break
+            if not ok or not uses:
+                continue
+            init = v.get("init")
+            i0 = strip(init) if isinstance(init, dict) else None
+            while i0 is not None and i0.get("k") in ("ExprWithCleanups", "ImplicitCastExpr", "MaterializeTemporaryExpr", "CXXBindTemporaryExpr") and len(i0.get("c", [])) == 1:
+                i0 = strip(i0["c"][0])
+            n_el = dims[0] * (dims[1] if len(dims) == 2 else 1)
+            if i0 is None or (i0.get("k") == "CXXConstructExpr" and not i0.get("c")):
+                if const:
+                    continue
+                plan["mode"], plan["inits"] = "scalars", [None] * n_el
+            elif i0.get("k") == "InitListExpr":
+                leaves = []
+
+                def flat(e):
+                    if e.get("k") == "InitListExpr":
+                        for c in e.get("c", []) or []:
+                            if isinstance(c, dict):
+                                flat(c)
+                    elif e.get("k") in ("ImplicitValueInitExpr", "ArrayInitLoopExpr"):
+                        pass
+                    else:
+                        leaves.append(e)
+                flat(i0)
+                if len(leaves) not in (0, n_el):
+                    continue
+                zero = {"k": "FloatingLiteral", "v": "0", "t": elem_t} if elem_t in ("double", "float") else {"k": "IntegerLiteral", "v": "0", "t": elem_t}
+                plan["mode"], plan["inits"] = "scalars", (leaves if leaves else [dict(zero) for _ in range(n_el)])
+            elif i0.get("k") == "CXXMemberCallExpr" and i0.get("callee") == "vec3::to_array" and const and len(dims) == 1 and dims[0] == 3 and not plan["fill"]:
+                me = strip(i0["c"][0])
+                obj = me["c"][0] if me.get("k") == "MemberExpr" and me.get("c") else None
+                if obj is None or not _effect_free_calls_ok(obj):
+                    continue
+                roots_const = all((x.get("t") or "").startswith("const ") for x in walk(obj) if x.get("k") in ("DeclRefExpr", "CXXThisExpr") and (x.get("k") == "CXXThisExpr" or (x.get("ref") or {}).get("dk") in ("Var", "ParmVar", "Binding")))
+                if not roots_const:
+                    continue
+                plan["mode"], plan["obj"] = "accessor", obj
+            else:
+                continue
+            plans[did] = plan
+        if not plans:
+            continue
+        repl = {}       # id(node) -> replacement node
+        decl_repl = {}  # did -> list of new Var
+        for did, plan in plans.items():
+            v = plan["var"]
+            dims = plan["dims"]
+            if plan["mode"] == "accessor":
+                for node, idx in plan["elem"]:
+                    acc = _ACCESSOR["vec3"][idx[0]]
+                    ck = [f_["key"] for f_ in prog.functions.values() if f_.get("qn") == acc and not f_.get("params")]
+                    repl[id(node)] = {"k": "CXXMemberCallExpr", "callee": acc, "ckey": ck[0] if ck else None, "cconst": True, "t": "double", "l": node.get("l"), "sroa_of": v.get("name"),
+                                      "c": [{"k": "MemberExpr", "arrow": False, "t": "<bound member function type>", "l": node.get("l"), "ref": {"name": acc.split("::")[1], "dk": "CXXMethod", "qn": acc}, "c": [copy.deepcopy(plan["obj"])]}]}
+                total += 1
+                continue
+            names = {}
+            news = []
+            idxs = [(i,) for i in range(dims[0])] if len(dims) == 1 else [(i, j) for i in range(dims[0]) for j in range(dims[1])]
+            for pos, idx in enumerate(idxs):
+                nd = fresh[0]
+                fresh[0] += 1
+                nm = "%s_%s" % (v.get("name"), "_".join(map(str, idx)))
+                names[idx] = (nd, nm)
+                nv = {"k": "Var", "did": nd, "name": nm, "t": ("const " if plan["const"] else "") + plan["elem_t"], "l": v.get("l"), "sroa_of": v.get("name")}
+                if plan["inits"][pos] is not None:
+                    nv["init"] = plan["inits"][pos]
+                news.append(nv)
+            decl_repl[did] = news
+
+            def ref(idx, l):
+                nd, nm = names[idx]
+                return {"k": "DeclRefExpr", "t": plan["elem_t"], "vc": "l", "l": l, "ref": {"did": nd, "dk": "Var", "name": nm}}
+            for node, idx in plan["elem"]:
+                repl[id(node)] = ref(idx, node.get("l"))
+            for node, k in plan["row"]:
+                repl[id(node)] = {"k": "InitListExpr", "t": "std::array<%s, %d>" % (plan["elem_t"], dims[1]), "l": node.get("l"), "sroa_of": v.get("name"), "c": [ref((k, j), node.get("l")) for j in range(dims[1])]}
+            for node, arg in plan["fill"]:
+                repl[id(node)] = {"k": "CompoundStmt", "inlined_lambda": True, "l": node.get("l"), "sroa_of": v.get("name"),
+                                  "c": [{"k": "BinaryOperator", "op": "=", "t": plan["elem_t"], "l": node.get("l"), "c": [ref(idx, node.get("l")), copy.deepcopy(arg)]} for idx in idxs]}
+            total += 1
+
+        def apply(n):
+            r = repl.get(id(n))
+            if r is not None:
+                return r
+            if n.get("k") == "DeclStmt" and any(isinstance(d, dict) and d.get("did") in decl_repl for d in n.get("decls", [])):
+                out = []
+                for d in n["decls"]:
+                    if isinstance(d, dict) and d.get("did") in decl_repl:
+                        out.extend(decl_repl[d["did"]])
+                    else:
+                        out.append(d)
+                n["decls"] = out
+            return n
+        # pre-order replacement (a replaced node is not descended into: its sub-nodes belong to the old form)
+        def pre(n):
+            r = repl.get(id(n))
+            if r is not None:
+                return r
+            for key in _SUBKEYS + ("var", "condvar"):
+                if isinstance(n.get(key), dict):
+                    n[key] = pre(n[key])
+            for key in ("c", "decls", "handlers"):
+                if isinstance(n.get(key), list):
+                    n[key] = [pre(x) if isinstance(x, dict) else x for x in n[key]]
+            return apply(n)
+        fn["body"] = pre(fn["body"])
+        _declare_at_single_assignment(fn, {nv["did"] for news in decl_repl.values() for nv in news})
+        fn.pop("_stable_locals", None)
+    return total
+
+
+def _declare_at_single_assignment(fn, dids):
+    """A scalar (element of a scalarised array) that is declared without a meaningful value ('{}' or nothing), then assigned exactly
+    once by a statement that runs exactly once (only blocks between it and the function body) before every read, is declared at
+    that assignment instead: `T s{}; ...; s = E;` -> `...; T s = E;`.  Same values everywhere it is read."""
+    from .model import children as _ch
+    order, parent = {}, {}
+    for i, n in enumerate(walk(fn["body"])):
+        order[id(n)] = i
+        for c in _ch(n):
+            parent[id(c)] = n
+    for did in dids:
+        decl = [v for v in walk(fn["body"]) if v.get("k") == "Var" and v.get("did") == did]
+        if len(decl) != 1:
+            continue
+        decl = decl[0]
+        init = decl.get("init")
+        if isinstance(init, dict) and not (strip(init).get("k") in ("IntegerLiteral", "FloatingLiteral") and float(strip(init).get("v", "1")) == 0.0):
+            continue
+        refs = [x for x in walk(fn["body"]) if x.get("k") == "DeclRefExpr" and (x.get("ref") or {}).get("did") == did]
+        writes = []
+        for r in refs:
+            p = parent.get(id(r))
+            while p is not None and p.get("k") in ("ParenExpr",):
+                r, p = p, parent.get(id(p))
+            if p is not None and ((p.get("k") == "BinaryOperator" and p.get("op") == "=") or p.get("k") == "CompoundAssignOperator" or (p.get("k") == "UnaryOperator" and p.get("op") in ("++", "--", "post++", "post--", "pre++", "pre--", "&"))) and p["c"][0] is r:
+                writes.append((r, p))
+        if len(writes) != 1 or writes[0][1].get("k") != "BinaryOperator":
+            continue
+        wref, w = writes[0]
+        holder = parent.get(id(w))
+        top = w
+        if holder is not None and holder.get("k") == "ExprWithCleanups":
+            top, holder = holder, parent.get(id(holder))
+        if holder is None or holder.get("k") != "CompoundStmt":
+            continue
+        q, once = holder, True
+        while q is not None and q is not fn["body"]:
+            if q.get("k") != "CompoundStmt":
+                once = False
+                break
+            q = parent.get(id(q))
+        if not once:
+            continue
+        end_w = max(order[id(x)] for x in walk(w))
+        if any(order[id(r)] <= end_w for r in refs if r is not wref):
+            continue
+        # move the declaration
+        newdecl = {"k": "DeclStmt", "l": w.get("l"), "decls": [dict(decl, init=w["c"][1], l=w.get("l"))], "declared_at_assignment": True}
+        holder["c"] = [newdecl if x is top else x for x in holder["c"]]
+        for ds in walk(fn["body"]):
+            if ds.get("k") == "DeclStmt" and ds is not newdecl and any(d is decl for d in ds.get("decls", [])):
+                ds["decls"] = [d for d in ds["decls"] if d is not decl]
